@@ -136,11 +136,15 @@ def infoset_json(e):
             [infoset_json(c) for c in e]]
 
 
-def ws_equal(a, b):
-    """equal up to the whitespace policy: text fields after strip with None == ''"""
+def ws_equal(a, b, clean=False):
+    """equal up to the whitespace policy: text fields after strip with None == ''.  In clean mode the text of a childless element
+    comes back exactly: the exporter writes it without padding (`<t>text</t>`) and the policy keeps text made only of spaces / tabs /
+    non-breaking spaces, so such text does not disappear on the way"""
     def n(x):
         y = dict(x)
-        y["content"] = (x["content"] or "").strip(); y["tail"] = (x["tail"] or "").strip()
+        if not (clean and not x["kids"]):
+            y["content"] = (x["content"] or "").strip()
+        y["tail"] = (x["tail"] or "").strip()
         y["kids"] = [n(k) for k in x["kids"]]
         return y
     return n(a) == n(b)
@@ -192,7 +196,7 @@ def run(ctx):
                 impl.reset()
                 t1 = metapype_io.from_xml(x1, clean, collapse, literals)
                 s1 = impl.snapshot(t1); gen.strip_ids(s1)
-                if not ws_equal(view_tree(s1), got):
+                if not ws_equal(view_tree(s1), got, clean):
                     fails.append({"case": case, "what": "from_xml(to_xml(from_xml(doc))) differs from from_xml(doc) beyond the whitespace policy"})
             except Exception as ex:
                 fails.append({"case": case, "what": f"export / re-import raised {type(ex).__name__}: {ex}"})
